@@ -377,6 +377,27 @@ func runC18(c *Ctx, w *World, r *Report) {
 				if !(bd.HasLo && bd.Lo == 0) {
 					bad = "the cursor is stored with new-base in " + bd.String() + ": positions before the section start must be rejected exactly (new-base >= 0)"
 				}
+				// the test must compare the new position with base directly: the difference new-base wraps around for a
+				// position that itself overflowed (offset + base/cursor/limit beyond the int64 range), and the wrapped
+				// difference passes a `>= 0` test although the position lies before the section
+				direct := false
+				newL, baseL := fa.Lin(st.Val), fa.Lin(baseV)
+				for _, cd := range fa.Conds(st.Block()) {
+					bo, ok := cd.V.(*ssa.BinOp)
+					if !ok {
+						continue
+					}
+					if _, isRel := tokOp(bo.Op); !isRel {
+						continue
+					}
+					lx, ly := fa.Lin(bo.X), fa.Lin(bo.Y)
+					if lx.Eq(newL) && ly.Eq(baseL) || lx.Eq(baseL) && ly.Eq(newL) {
+						direct = true
+					}
+				}
+				if !direct && bad == "" {
+					bad = "the start-of-section test is not a direct comparison of the new position with base (it tests a computed difference): for a target that overflows int64 the difference wraps and a position before the section start is accepted"
+				}
 				// returns
 				for _, ret := range returnsOf(fn) {
 					if instrDominates(st, ret) {
@@ -459,13 +480,14 @@ func runC18(c *Ctx, w *World, r *Report) {
 
 		at := fns["iohelper.AtToWriter"]
 		fat := w.FA(at)
-		badA := "AtToWriter does not call NewSectionWriter"
+		badA := ""
+		nctor := 0
 		eachInstr(at, func(ins ssa.Instruction) {
 			call, ok := ins.(*ssa.Call)
 			if !ok || call.Common().StaticCallee() != fn {
 				return
 			}
-			badA = ""
+			nctor++
 			a := call.Common().Args
 			if a[0] != ssa.Value(at.Params[0]) || !fat.Lin(a[1]).Eq(fat.Lin(at.Params[1])) {
 				badA = "AtToWriter does not pass (w, offset)"
@@ -475,6 +497,21 @@ func runC18(c *Ctx, w *World, r *Report) {
 				badA = "section length is " + fat.Lin(a[2]).String() + ", expected MaxInt64 - offset (no practical end, no overflow of off+n)"
 			}
 		})
+		if nctor == 0 {
+			badA = "AtToWriter does not call NewSectionWriter"
+		}
+		// every result is such a section
+		for _, ret := range returnsOf(at) {
+			for _, src := range resolvePhi(ret.Results[0]) {
+				v := src
+				if mi, ok := v.(*ssa.MakeInterface); ok {
+					v = mi.X
+				}
+				if call, ok := v.(*ssa.Call); !ok || call.Common().StaticCallee() != fn {
+					badA = "AtToWriter returns " + fmtVal(w, src) + " at " + w.InstrPos(ret) + ", not a NewSectionWriter(w, offset, MaxInt64-offset)"
+				}
+			}
+		}
 		r.Check(badA == "", "R-CTOR", "iohelper.AtToWriter", w.Pos(at.Pos()), badA, "NewSectionWriter(w, offset, MaxInt64-offset)")
 
 		sz := fns["iohelper.(*SectionWriter).Size"]
